@@ -93,7 +93,16 @@ impl SegmentBlock {
     }
 
     pub fn read_record(&self, start_offset: u64) -> Result<Option<Record>, ReadError> {
-        let offset = (start_offset - self.offset) as usize;
+        // An offset before this block (reverse iteration moving to an earlier block) is
+        // out of bounds for the block, not an arithmetic error.
+        let Some(offset) = start_offset.checked_sub(self.offset) else {
+            return Err(ReadError::Reader(seglog::read::ReadError::OutOfBounds {
+                offset: start_offset,
+                length: seglog::RECORD_HEAD_SIZE,
+                flushed_offset: self.offset,
+            }));
+        };
+        let offset = offset as usize;
         let ([confirmation_count_byte], bytes, record_len) =
             seglog::parse::parse_record::<CONFIRMATION_HEADER_SIZE>(&self.block, offset)?;
 
